@@ -111,11 +111,19 @@ impl Engine {
                         continue;
                     }
                 };
+                let mut complete = true;
                 for hash in hashes {
-                    if let Err(_err) = tx.send(hash).await {
+                    if let Err(_err) = tx.send(hash.map(Some)).await {
                         debug!("protect task: failed to forward hash");
+                        complete = false;
                         break;
                     }
+                }
+                // Tell the callback that the set is complete. If this task is cancelled before it
+                // gets here the callback sees the channel close without this marker and aborts the
+                // garbage collection run instead of continuing with a partial set.
+                if complete {
+                    tx.send(Ok(None)).await.ok();
                 }
             }
         }));
@@ -475,14 +483,14 @@ impl DefaultAuthor {
 }
 
 #[derive(Debug)]
-struct ProtectCallbackSender(mpsc::Sender<oneshot::Sender<mpsc::Receiver<Result<Hash>>>>);
+struct ProtectCallbackSender(mpsc::Sender<oneshot::Sender<mpsc::Receiver<Result<Option<Hash>>>>>);
 
 /// The handler for a blobs protection callback.
 ///
 /// See [`ProtectCallbackHandler::new`].
 #[derive(Debug)]
 pub struct ProtectCallbackHandler(
-    pub(crate) mpsc::Receiver<oneshot::Sender<mpsc::Receiver<Result<Hash>>>>,
+    pub(crate) mpsc::Receiver<oneshot::Sender<mpsc::Receiver<Result<Option<Hash>>>>>,
 );
 
 impl ProtectCallbackHandler {
@@ -526,18 +534,24 @@ impl ProtectCallbackSender {
                         return ProtectOutcome::Abort;
                     }
                 };
+                // `Ok(None)` marks the end of a complete set. A channel that closes without it
+                // means the docs side went away in the middle: the set is partial.
                 while let Some(res) = rx.recv().await {
                     match res {
                         Err(err) => {
                             tracing::warn!("Getting protected hashes produces error: {err:#}");
                             return ProtectOutcome::Abort;
                         }
-                        Ok(hash) => {
+                        Ok(Some(hash)) => {
                             live.insert(hash);
                         }
+                        Ok(None) => return ProtectOutcome::Continue,
                     }
                 }
-                ProtectOutcome::Continue
+                tracing::warn!(
+                    "Failed to get protected hashes from docs: stream ended before the set was complete"
+                );
+                ProtectOutcome::Abort
             })
         })
     }
